@@ -66,11 +66,17 @@ Proof. exact EvictHost.evict_sound_full. Qed.
    spawn queues are empty (unless it has been aborted), and its cell still holds the host's waker or that waker has
    been woken - whatever happens to it later finds the host subscribed (C05_wake_queues_task) or queued already. *)
 Theorem C05_pending_hosted_command_is_quiet_and_host_subscribed : forall fuel x' w H H',
-  EvictHost.OrdH H -> S x' < length (cmds H) -> poll_next (S fuel) (S x') w H = Some (PNPending, H') ->
+  EvictHost.OrdH H -> EvictHost.waker_lt w (S x') -> S x' < length (cmds H) -> poll_next (S fuel) (S x') w H = Some (PNPending, H') ->
   c_evs (gcmd (S x') H') = [] /\ c_eff (gcmd (S x') H') = [] /\
   (was_aborted (S x') H' = false -> c_ready (gcmd (S x') H') = [] /\ c_spawnq (gcmd (S x') H') = []) /\
   (c_atomic (gcmd (S x') H') = Some w \/ Evict.woken_of w H') /\ EvictHost.OrdH H'.
 Proof. exact EvictHost.poll_next_pending_quiet_and_subscribed. Qed.
+
+(* The chain of hosts is followed to its end whatever the nesting depth: wakes start with fuel wfuel w = S (the waker's
+   command id); under the order invariant the ids along a chain strictly decrease, so more fuel changes nothing.
+   (The model has no bound on the nesting depth; C05_wake_reaches_executor's fuel hypothesis is always met.) *)
+Theorem C05_wake_never_runs_out_of_fuel : forall n w H, EvictHost.OrdH H -> wake (n + wfuel w) w H = wake (wfuel w) w H.
+Proof. intros n w H O. apply EvictHost.wake_fuel_suffices, EvictHost.OrdH_AOrd, O. Qed.
 
 (* hosting never touches abort bookkeeping of any existing command (frame theorem) *)
 Theorem C05_hosting_frame : forall fuel cid w H r H',
